@@ -254,7 +254,7 @@ def gen_prol_cases(ctx):
             new = [(b[0] + b[1]) / 2]
         kv2 = sorted(kv1 + new)
         cases.append({'p': p, 'kv1': hexs(kv1), 'kv2': hexs(kv2), 'kind': kind, 'mode': mode,
-                      'refine': kind == 'refine', '_kv1': kv1, '_kv2': kv2})
+                      'refine': kind == 'refine', '_kv1': kv1, '_kv2': kv2, '_b': list(b), '_mults': list(mults)})
     return cases
 
 
@@ -956,12 +956,22 @@ def coq_prol(c, r, bound, rng):
         clist(kv1, cqc), p, clist(us, cqc), clist(kv2, cqc), impl, cqc(bound), clist(xs, cqc))
 
 
+def coq_bridge(c, r, bound):
+    """dyadic case (kv2 = kv1.refine()): hypotheses of dyadic_child_pattern_midpoints hold on this input and the
+    non-zero entries of the exact product / the implementation's entries beyond the float bound lie in C04's child pattern"""
+    impl = clist([clist([fr(x) for x in row], cqc) for row in r['P']])
+    return 'check_bridge %s %d%%nat %s %s %s %s %s' % (
+        clist(c['_kv1'], cqc), c['p'], clist(c['_b'], cqc), '[' + '; '.join('%d%%nat' % m for m in c['_mults']) + ']',
+        clist(c['_kv2'], cqc), impl, cqc(bound))
+
+
 def strip(c):
     return {k: v for k, v in c.items() if not k.startswith('_')}
 
 
 def run(ctx):
     ctx.obligations_stage(PROPS, extra_targets=['C05/Examples.vo', 'C05/HierEx.vo', 'C05/HierEx2.vo'], gate_dirs=['C02'])
+    ctx.obligations_stage('C05/Props3.v', extra_targets=['C05/Examples3.vo'], gate_dirs=['C02', 'C04', 'C07'])
     ctx.assumptions += [
         'model: hand transcription of bspline.knot_insertion (the three loops over a lil_matrix, bspline.py:714-736) into Gallina over Qc '
         '(coq/C05/Model.v); prolongation(kv1,kv2) is SPECIFIED as the product of the single insertions of kv2 minus kv1 '
@@ -1072,6 +1082,16 @@ def run(ctx):
         body += 'Eval vm_compute in bad_cases 0 results.\n'
         files.append(('C05_prol_%03d' % n, body))
         index.append(('prol', chunk))
+    # bridge C05 <-> C04 (coq/C05/Bridge.v): every dyadic prolongation case
+    okbridge = [(c, r, b) for c, r, b in okprol if c['refine']]
+    for n, i in enumerate(range(0, len(okbridge), 4)):
+        chunk = okbridge[i:i + 4]
+        body = (HEADER + 'From Verif.C05 Require Import Bridge.\n' + 'Definition results := [\n'
+                + ';\n'.join(coq_bridge(c, r, b) for c, r, b in chunk) + '].\nEval vm_compute in bad_cases 0 results.\n')
+        files.append(('C05_bridge_%03d' % n, body))
+        index.append(('bridge', chunk))
+        for c, r, b in chunk:
+            ctx.count('bridge_child_pattern', nontrivial=len(c['_b']) > 2)
     # the hierarchy of coq/C05/HierEx.v (witness of vh_prolongators_thb_old_refuted) is the first corpus
     # history: the implementation's THB prolongator [1] must be the model's Pthb_old entry by entry
     r0 = rh[0] if rh else None
@@ -1138,6 +1158,16 @@ def run(ctx):
     ctx.cov['disagreements_checked'] = len(dis)
     for kind, item in dis[:4]:
         c, r = item[0], item[1]
+        if kind == 'bridge':
+            ctx.broken.append('bridge C05<->C04: a dyadic prolongation has an entry outside the child pattern of coq/C04/Children.v, or the '
+                              'hypotheses of dyadic_child_pattern_midpoints fail on a generated knot vector (p=%d)' % c['p'])
+            ctx.report('tie:bridge-child-pattern',
+                       'bspline.prolongation(kv, kv.refine()) has an entry beyond the float bound outside the children pattern phi(i) <= j <= phi(i+p+1)-(p+1) '
+                       '(or the exact knot-insertion product has, contradicting dyadic_child_pattern_midpoints)',
+                       {'p': c['p'], 'kv1': [float(x) for x in c['_kv1']], 'kv2': [float(x) for x in c['_kv2']], 'mults': c['_mults'], 'bound': float(item[2]),
+                        'how': 'bspline.prolongation(KnotVector(kv1,p), KnotVector(kv2,p)).toarray() against check_bridge of coq/C05/Bridge.v'},
+                       found_input=False)
+            continue
         if kind == 'ki':
             bad = check_ki_impl(c, r)
             ctx.broken.append('correspondence C05 model<->impl differs for knot_insertion (p=%d, kind %s)' % (c['p'], c['kind']))
@@ -1165,8 +1195,8 @@ def run(ctx):
     ctx.cov['bounds'] = {'knot_insertion': '2^-51', 'prolongation_max': float(max(bounds)) if bounds else None, 'hierarchical': '2^-23'}
     ctx.cov['partial'] = [                          'vh_prolongators_thb_repaired: rests on the hypothesis that H2 undoes T2 (product of truncate_one_level factors); code as it is: vh_prolongators_thb_old_refuted',
                           'prolongate_to_replaced_partial: propagation proved, canonical-index bookkeeping of the returned matrix not modelled',
-                          'boundary_restriction: not proved (oracle only)',
-                          'reachable versions (vh_prolongators_hb_reachable, prolongate_to_replaced_reachable): children-closedness is C04.children_closed; remaining hypotheses: the non-zero pattern of the prolongator columns lies in the C04 children pattern, raveling injective and in range']
+                          'boundary_restriction: proved for the tensor-product (HB) functions of every level (coq/C05/Props3.v); the truncated functions of a THB boundary space and the set bookkeeping of boundary(): oracle only',
+                          'reachable versions (vh_prolongators_hb_reachable, prolongate_to_replaced_reachable): children-closedness is C04.children_closed; remaining hypotheses: the non-zero pattern of the prolongator columns lies in the C04 children pattern (1-D: now dyadic_child_pattern, coq/C05/Props3.v; its Kronecker/raveling lifting is not proved), raveling injective and in range']
     if ki:
         ctx.sample({'knot_insertion': {'p': ki[0]['p'], 'kv': [float(x) for x in ki[0]['_kv']], 'u': float(ki[0]['_u']), 'impl_k': rki[0].get('k')}})
     if hier:
